@@ -395,3 +395,20 @@ def query_wide(k0, k1, w0, w1, v0, v1):
     if cur.description[1].datatype is not int or cur.description[8].datatype is not bool:
         return 'announced-datatypes'
     return 'ok'
+
+
+@cond('C02.keys.duplicate', quick=180,
+      bounds='2 rows (k in {NULL,0,1}, w bool, v symbolic int or NULL); the same grouping key named twice (by position and by name, '
+             'by name twice, by name and by an equal expression) plus a further key: SELECT k, w, sum(v) GROUP BY <forms>',
+      symbolic='v, w cells', enumerated='k cells, the spelling of the GROUP BY list',
+      params={'k0': int, 'k1': int, 'w0': bool, 'w1': bool, 'v0': Optional[int], 'v1': Optional[int], 'form': int})
+def keys_duplicate(k0, k1, w0, w1, v0, v1, form):
+    rows = [(KEYDOM.build('k', {'k': k0}), True if w0 else False, v0), (KEYDOM.build('k', {'k': k1}), True if w1 else False, v1)]
+    columns = [('k', int), ('w', bool), ('v', int)]
+    groups = [[1, col('k'), col('w')], [col('k'), col('k'), col('w')], [col('w'), 1, col('k'), 2], [1, 2, 1], [col('k'), 2, col('k')]]
+    stmt = sel([target(col('k')), target(col('w')), target(func('sum', col('v')), 's')], 't',
+               group_by=ast.GroupBy(pick(groups, form), None))
+    cur, got, want = _run_both(stmt, rows, columns)
+    if not same_rows(got, want.rows):
+        return 'duplicate-grouping-key'
+    return 'ok'
